@@ -4,6 +4,9 @@ Helper lemmas for C16 (open addressing with linear probing and backward-shift
 deletion).  Plan: DESIGN.md Appendix A.1.  Cyclic distance is piecewise
 (`dist`), never `%`, so the arithmetic leaves are closed by `grind`/`omega`.
 -/
+set_option linter.unusedSectionVars false
+set_option linter.unusedVariables false
+
 namespace SdnsVerif.Lemmas.UMap
 open SdnsVerif.Model.UMap
 
@@ -11,7 +14,6 @@ variable {V : Type} [Inhabited V]
 
 /-! ### slot arrays as functions -/
 
-omit [Inhabited V] in
 theorem size_wr (a : Slots V) (i : Nat) (x : Nat × V) : (wr a i x).size = a.size := by
   simp [wr]
 
@@ -306,5 +308,477 @@ theorem lookup_congr (a b : Slots V) (k : Nat) (hk : k ≠ 0)
     have := (h v).mp ((lookup_eq_some_iff a k v na').mp ha)
     rw [← lookup_eq_some_iff b k v nb'] at this
     rw [this]
+
+
+/-! ### insertion -/
+
+/-- the invariant only looks at keys -/
+theorem sinv_congr {idx : Nat → Nat → Nat} {a b : Slots V} (hs : b.size = a.size)
+    (hk : ∀ x, key b x = key a x) (inv : SInv idx a) : SInv idx b := by
+  refine ⟨?_, ?_, ?_⟩
+  · intro i j hi hj h0 he
+    rw [hs] at hi hj
+    rw [hk] at h0
+    rw [hk, hk] at he
+    exact inv.nodup i j hi hj h0 he
+  · intro j hj h0 x hx hlt
+    rw [hs] at hj hx hlt
+    rw [hk] at h0 hlt ⊢
+    exact inv.path j hj h0 x hx hlt
+  · obtain ⟨e, he, hke⟩ := inv.free
+    exact ⟨e, by omega, by rw [hk]; exact hke⟩
+
+theorem key_wr (a : Slots V) (i j : Nat) (x : Nat × V) :
+    key (wr a i x) j = if i = j ∧ i < a.size then x.1 else key a j := by
+  unfold key; rw [rd_wr]; split <;> rfl
+
+/-- overwriting the value of a stored key keeps the invariant -/
+theorem sinv_update {idx : Nat → Nat → Nat} {a : Slots V} (inv : SInv idx a) (i : Nat) (v : V) :
+    SInv idx (wr a i (key a i, v)) := by
+  apply sinv_congr (size_wr _ _ _) _ inv
+  intro x
+  rw [key_wr]
+  split
+  · rename_i h; rw [h.1]
+  · rfl
+
+/-- **Insertion into the first empty slot of the key's path keeps the invariant.** -/
+theorem sinv_insert {idx : Nat → Nat → Nat} {a : Slots V} (hi : IdxOk idx) (inv : SInv idx a)
+    (k : Nat) (v : V) (e : Nat) (hk : k ≠ 0) (he : e < a.size) (hke : key a e = 0)
+    (hpath : ∀ x, x < a.size → dist a.size (idx a.size k) x < dist a.size (idx a.size k) e → key a x ≠ 0)
+    (habs : ∀ p, p < a.size → key a p ≠ k) (hroom : occ a + 1 < a.size) :
+    SInv idx (wr a e (k, v)) := by
+  have hs := size_wr a e (k, v)
+  have hkey : ∀ x, key (wr a e (k, v)) x = if e = x then k else key a x := by
+    intro x; rw [key_wr]; simp [he]
+  refine ⟨?_, ?_, ?_⟩
+  · intro i j hi' hj h0 heq
+    rw [hs] at hi' hj
+    rw [hkey] at h0
+    rw [hkey, hkey] at heq
+    by_cases h1 : e = i <;> by_cases h2 : e = j
+    · omega
+    · rw [if_pos h1, if_neg h2] at heq
+      exact absurd heq.symm (habs j hj)
+    · rw [if_neg h1, if_pos h2] at heq
+      exact absurd heq (habs i hi')
+    · rw [if_neg h1, if_neg h2] at heq
+      rw [if_neg h1] at h0
+      exact inv.nodup i j hi' hj h0 heq
+  · intro j hj h0 x hx hlt
+    rw [hs] at hj hx hlt
+    rw [hkey] at h0 hlt
+    rw [hkey]
+    by_cases h1 : e = j
+    · rw [if_pos h1] at hlt
+      subst h1
+      have hxe : e ≠ x := by intro h; subst h; omega
+      rw [if_neg hxe]
+      exact hpath x hx hlt
+    · rw [if_neg h1] at hlt h0
+      by_cases h2 : e = x
+      · rw [if_pos h2]; exact hk
+      · rw [if_neg h2]
+        exact inv.path j hj h0 x hx hlt
+  · apply exists_free
+    have := occ_wr a e (k, v) he
+    rw [hs]
+    simp only [hke, ne_eq, not_true_eq_false, if_false, hk, not_false_eq_true, if_true] at this
+    omega
+
+/-- after an insertion exactly the new pair was added -/
+theorem has_insert (a : Slots V) (e k : Nat) (v : V) (he : e < a.size) (hke : key a e = 0)
+    (k' : Nat) (hk' : k' ≠ 0) (v' : V) :
+    Has (wr a e (k, v)) k' v' ↔ (k' = k ∧ v' = v) ∨ Has a k' v' := by
+  unfold Has
+  rw [size_wr]
+  constructor
+  · rintro ⟨p, hp, hrd⟩
+    rw [rd_wr] at hrd
+    by_cases h : e = p
+    · simp only [h, true_and, hp, if_true, Prod.mk.injEq] at hrd
+      exact Or.inl ⟨hrd.1.symm, hrd.2.symm⟩
+    · simp only [h, false_and, if_false] at hrd
+      exact Or.inr ⟨p, hp, hrd⟩
+  · rintro (⟨rfl, rfl⟩ | ⟨p, hp, hrd⟩)
+    · exact ⟨e, he, rd_wr_same a e _ he⟩
+    · have : e ≠ p := by
+        intro h; subst h
+        unfold key at hke; rw [hrd] at hke; exact hk' hke
+      exact ⟨p, hp, by rw [rd_wr_ne a e p _ this]; exact hrd⟩
+
+/-- after an update exactly the value of that key changed -/
+theorem has_update (a : Slots V) (i : Nat) (v : V) (hi : i < a.size)
+    (nodup : ∀ i j, i < a.size → j < a.size → key a i ≠ 0 → key a i = key a j → i = j)
+    (hk : key a i ≠ 0) (k' : Nat) (v' : V) :
+    Has (wr a i (key a i, v)) k' v' ↔ (k' = key a i ∧ v' = v) ∨ (k' ≠ key a i ∧ Has a k' v') := by
+  unfold Has
+  rw [size_wr]
+  constructor
+  · rintro ⟨p, hp, hrd⟩
+    rw [rd_wr] at hrd
+    by_cases h : i = p
+    · simp only [h, true_and, hp, if_true, Prod.mk.injEq] at hrd
+      exact Or.inl ⟨by rw [h]; exact hrd.1.symm, hrd.2.symm⟩
+    · simp only [h, false_and, if_false] at hrd
+      refine Or.inr ⟨?_, p, hp, hrd⟩
+      intro hkk
+      have hkp : key a p = k' := by unfold key; rw [hrd]
+      exact h (nodup i p hi hp hk (by rw [hkp, hkk]))
+  · rintro (⟨rfl, rfl⟩ | ⟨hne, p, hp, hrd⟩)
+    · exact ⟨i, hi, rd_wr_same a i _ hi⟩
+    · have : i ≠ p := by
+        intro h; subst h
+        unfold key at hne; rw [hrd] at hne; exact hne rfl
+      exact ⟨p, hp, by rw [rd_wr_ne a i p _ this]; exact hrd⟩
+
+
+/-! ### backward-shift deletion -/
+
+/-- loop invariant of `backwardShiftDelete`: hole `i`, cursor `j`; `i0` is the
+slot that was cleared, `e0` an empty slot ahead of the cursor. -/
+structure BSInv (idx : Nat → Nat → Nat) (n : Nat) (a : Slots V) (i0 e0 i j : Nat) : Prop where
+  sz : a.size = n
+  hi0 : i0 < n
+  he0 : e0 < n
+  hi : i < n
+  hj : j < n
+  hole : key a i = 0
+  e0_empty : key a e0 = 0
+  /-- everything scanned since the hole is occupied and starts after the hole -/
+  range : ∀ p, p < n → 0 < dist n i p → dist n i p ≤ dist n i j →
+    key a p ≠ 0 ∧ 0 < dist n i (idx n (key a p)) ∧ dist n i (idx n (key a p)) ≤ dist n i p
+  /-- `I₂` with the hole read as occupied -/
+  pathH : ∀ p, p < n → key a p ≠ 0 → ∀ x, x < n →
+    dist n (idx n (key a p)) x < dist n (idx n (key a p)) p → key a x ≠ 0 ∨ x = i
+  nodup : ∀ x y, x < n → y < n → key a x ≠ 0 → key a x = key a y → x = y
+  order : dist n i0 i ≤ dist n i0 j
+  ahead : dist n i0 j < dist n i0 e0
+
+/-- what `backwardShiftDelete` establishes -/
+structure BSPost (idx : Nat → Nat → Nat) (n : Nat) (a a' : Slots V) (i0 e0 : Nat) : Prop where
+  sz : a'.size = n
+  nodup : ∀ x y, x < n → y < n → key a' x ≠ 0 → key a' x = key a' y → x = y
+  path : ∀ p, p < n → key a' p ≠ 0 → ∀ x, x < n →
+    dist n (idx n (key a' p)) x < dist n (idx n (key a' p)) p → key a' x ≠ 0
+  e0_empty : key a' e0 = 0
+  has : ∀ k v, k ≠ 0 → (Has a' k v ↔ Has a k v)
+  occ : occ a' = occ a
+  /-- entries only move towards the cleared slot, never past it -/
+  moved : ∀ x, x < n → key a' x ≠ 0 → ∃ y, y < n ∧ rd a y = rd a' x ∧ dist n i0 x ≤ dist n i0 y
+
+theorem bs_next {idx : Nat → Nat → Nat} {n : Nat} {a : Slots V} {i0 e0 i j : Nat}
+    (I : BSInv idx n a i0 e0 i j) :
+    next n j < n ∧ dist n i0 (next n j) = dist n i0 j + 1 ∧ dist n i (next n j) = dist n i j + 1 := by
+  have h1 := I.hi0; have h2 := I.he0; have h3 := I.hi; have h4 := I.hj
+  have h5 := I.order; have h6 := I.ahead
+  have hlt := dist_lt h1 h2
+  have hn : next n j < n := next_lt (by omega)
+  have hd : dist n i0 (next n j) = dist n i0 j + 1 := dist_next h1 h4 (by omega)
+  refine ⟨hn, hd, ?_⟩
+  grind [dist]
+
+theorem bs_done {idx : Nat → Nat → Nat} {n : Nat} {a : Slots V} {i0 e0 i j : Nat} (hidx : IdxOk idx)
+    (I : BSInv idx n a i0 e0 i j) (hz : key a (next n j) = 0) : BSPost idx n a a i0 e0 := by
+  obtain ⟨hn, hd0, hdi⟩ := bs_next I
+  refine ⟨I.sz, I.nodup, ?_, I.e0_empty, fun _ _ _ => Iff.rfl, rfl, fun x hx _ => ⟨x, hx, rfl, Nat.le_refl _⟩⟩
+  intro p hp hkp x hx hlt
+  rcases I.pathH p hp hkp x hx hlt with h | h
+  · exact h
+  · subst h
+    exfalso
+    have hh : idx n (key a p) < n := hidx n _ (by omega)
+    have h3 := I.hi; have h4 := I.hj
+    by_cases hr : 0 < dist n x p ∧ dist n x p ≤ dist n x j
+    · obtain ⟨_, hb1, hb2⟩ := I.range p hp hr.1 hr.2
+      generalize idx n (key a p) = h at *
+      grind [dist]
+    · have hpi : p ≠ x := by intro h; subst h; exact hkp I.hole
+      have hpj : p ≠ next n j := by intro h; subst h; exact hkp hz
+      have : dist n (idx n (key a p)) (next n j) < dist n (idx n (key a p)) p := by
+        generalize idx n (key a p) = h at *
+        generalize next n j = j' at *
+        grind [dist]
+      rcases I.pathH p hp hkp (next n j) hn this with h | h
+      · exact h hz
+      · rw [h, dist_self] at hdi; omega
+
+
+theorem bs_skip {idx : Nat → Nat → Nat} {n : Nat} {a : Slots V} {i0 e0 i j : Nat} (hidx : IdxOk idx)
+    (I : BSInv idx n a i0 e0 i j) (hnz : key a (next n j) ≠ 0)
+    (hb : goBetween i (idx n (key a (next n j))) (next n j) = true) :
+    BSInv idx n a i0 e0 i (next n j) := by
+  obtain ⟨hn, hd0, hdi⟩ := bs_next I
+  have hh : idx n (key a (next n j)) < n := hidx n _ (by omega)
+  rw [goBetween_iff I.hi hh hn] at hb
+  refine { I with hj := hn, range := ?_, order := by have := I.order; omega, ahead := ?_ }
+  · intro p hp h0 hle
+    by_cases hpj : dist n i p ≤ dist n i j
+    · exact I.range p hp h0 hpj
+    · have : p = next n j := dist_inj I.hi hp hn (by omega)
+      subst this
+      exact ⟨hnz, hb.1, hb.2⟩
+  · have h1 := I.ahead
+    have hne : next n j ≠ e0 := by intro h; rw [h] at hnz; exact hnz I.e0_empty
+    have : dist n i0 (next n j) ≠ dist n i0 e0 := fun h => hne (dist_inj I.hi0 hn I.he0 h)
+    omega
+
+theorem bs_move {idx : Nat → Nat → Nat} {n : Nat} {a : Slots V} {i0 e0 i j : Nat} (hidx : IdxOk idx)
+    (I : BSInv idx n a i0 e0 i j) (hnz : key a (next n j) ≠ 0)
+    (hb : ¬ goBetween i (idx n (key a (next n j))) (next n j) = true) :
+    BSInv idx n (wr (wr a i (rd a (next n j))) (next n j) (0, default)) i0 e0 (next n j) (next n j) := by
+  obtain ⟨hn, hd0, hdi⟩ := bs_next I
+  have hh : idx n (key a (next n j)) < n := hidx n _ (by omega)
+  rw [goBetween_iff I.hi hh hn] at hb
+  have hsz := I.sz
+  have hij : i ≠ next n j := by intro h; rw [← h] at hnz; exact hnz I.hole
+  have hne0 : next n j ≠ e0 := by intro h; rw [h] at hnz; exact hnz I.e0_empty
+  have hie0 : i ≠ e0 := by
+    intro h; have := I.order; have := I.ahead; rw [h] at *; omega
+  -- keys of the new array
+  have hkey : ∀ x, key (wr (wr a i (rd a (next n j))) (next n j) (0, default)) x =
+      if x = next n j then 0 else if x = i then key a (next n j) else key a x := by
+    intro x
+    rw [key_wr, size_wr, hsz]
+    by_cases h1 : x = next n j
+    · rw [if_pos ⟨h1.symm, hn⟩, if_pos h1]
+    · rw [if_neg (by intro h; exact h1 h.1.symm), if_neg h1, key_wr, hsz]
+      by_cases h2 : x = i
+      · rw [if_pos ⟨h2.symm, I.hi⟩, if_pos h2]; rfl
+      · rw [if_neg (by intro h; exact h2 h.1.symm), if_neg h2]
+  refine ⟨by rw [size_wr, size_wr]; exact hsz, I.hi0, I.he0, hn, hn, ?_, ?_, ?_, ?_, ?_, Nat.le_refl _, ?_⟩
+  · rw [hkey]; simp
+  · rw [hkey, if_neg (Ne.symm hne0), if_neg (Ne.symm hie0)]; exact I.e0_empty
+  · intro p hp h0 hle; rw [dist_self] at hle; omega
+  · -- pathH with the new hole
+    intro p hp hkp x hx hlt
+    rw [hkey] at hkp hlt ⊢
+    by_cases hpj : p = next n j
+    · rw [if_pos hpj] at hkp; exact absurd rfl hkp
+    · rw [if_neg hpj] at hkp hlt
+      by_cases hxj : x = next n j
+      · exact Or.inr hxj
+      · rw [if_neg hxj]
+        left
+        by_cases hpi : p = i
+        · -- the moved entry: its path ends before the old hole
+          rw [if_pos hpi] at hkp hlt
+          subst hpi
+          have hxp : x ≠ p := by intro h; subst h; omega
+          rw [if_neg hxp]
+          have hlt' : dist n (idx n (key a (next n j))) x < dist n (idx n (key a (next n j))) (next n j) := by
+            have h3 := I.hi
+            generalize idx n (key a (next n j)) = h at *
+            generalize next n j = j' at *
+            grind [dist]
+          rcases I.pathH (next n j) hn hnz x hx hlt' with h | h
+          · exact h
+          · exact absurd h hxp
+        · rw [if_neg hpi] at hkp hlt
+          by_cases hxi : x = i
+          · rw [if_pos hxi]; exact hnz
+          · rw [if_neg hxi]
+            rcases I.pathH p hp hkp x hx hlt with h | h
+            · exact h
+            · exact absurd h hxi
+  · -- no duplicates
+    intro x y hx hy h0 heq
+    rw [hkey] at h0
+    rw [hkey, hkey] at heq
+    by_cases hxj : x = next n j
+    · rw [if_pos hxj] at h0; exact absurd rfl h0
+    · rw [if_neg hxj] at h0 heq
+      by_cases hyj : y = next n j
+      · rw [if_pos hyj] at heq; exact absurd heq h0
+      · rw [if_neg hyj] at heq
+        by_cases hxi : x = i <;> by_cases hyi : y = i
+        · omega
+        · rw [if_pos hxi, if_neg hyi] at heq
+          exact absurd (I.nodup (next n j) y hn hy hnz heq) (Ne.symm hyj)
+        · rw [if_neg hxi, if_pos hyi] at heq
+          rw [if_neg hxi] at h0
+          exact absurd (I.nodup x (next n j) hx hn h0 heq) hxj
+        · rw [if_neg hxi, if_neg hyi] at heq
+          rw [if_neg hxi] at h0
+          exact I.nodup x y hx hy h0 heq
+  · have h1 := I.ahead
+    have : dist n i0 (next n j) ≠ dist n i0 e0 := fun h => hne0 (dist_inj I.hi0 hn I.he0 h)
+    omega
+
+
+/-- what one move of `backwardShiftDelete` does to the contents -/
+theorem move_rel {n : Nat} (a : Slots V) (i j' : Nat) (hsz : a.size = n) (hi : i < n) (hj : j' < n)
+    (hij : i ≠ j') (hole : key a i = 0) (hnz : key a j' ≠ 0) :
+    let a' := wr (wr a i (rd a j')) j' (0, default)
+    (∀ k v, k ≠ 0 → (Has a' k v ↔ Has a k v)) ∧ occ a' = occ a ∧
+    (∀ x, x < n → key a' x ≠ 0 → (x = i ∧ rd a' x = rd a j') ∨ (x ≠ i ∧ x ≠ j' ∧ rd a' x = rd a x)) := by
+  intro a'
+  have hrd : ∀ x, rd a' x = if x = j' then (0, default) else if x = i then rd a j' else rd a x := by
+    intro x
+    show rd (wr (wr a i (rd a j')) j' (0, default)) x = _
+    rw [rd_wr, size_wr, hsz]
+    by_cases h1 : x = j'
+    · rw [if_pos ⟨h1.symm, hj⟩, if_pos h1]
+    · rw [if_neg (by intro h; exact h1 h.1.symm), if_neg h1, rd_wr, hsz]
+      by_cases h2 : x = i
+      · rw [if_pos ⟨h2.symm, hi⟩, if_pos h2]
+      · rw [if_neg (by intro h; exact h2 h.1.symm), if_neg h2]
+  have hsz' : a'.size = n := by show (wr (wr a i (rd a j')) j' (0, default)).size = n; rw [size_wr, size_wr, hsz]
+  refine ⟨?_, ?_, ?_⟩
+  · intro k v hk
+    unfold Has
+    rw [hsz', hsz]
+    constructor
+    · rintro ⟨p, hp, h⟩
+      rw [hrd] at h
+      by_cases h1 : p = j'
+      · rw [if_pos h1] at h; simp only [Prod.mk.injEq] at h; exact absurd h.1.symm hk
+      · rw [if_neg h1] at h
+        by_cases h2 : p = i
+        · rw [if_pos h2] at h; exact ⟨j', hj, h⟩
+        · rw [if_neg h2] at h; exact ⟨p, hp, h⟩
+    · rintro ⟨p, hp, h⟩
+      have hpi : p ≠ i := by intro e; subst e; unfold key at hole; rw [h] at hole; exact hk hole
+      by_cases h1 : p = j'
+      · subst h1
+        exact ⟨i, hi, by rw [hrd, if_neg hij, if_pos rfl]; exact h⟩
+      · exact ⟨p, hp, by rw [hrd, if_neg h1, if_neg hpi]; exact h⟩
+  · have h1 := occ_wr a i (rd a j') (by omega)
+    have h2 := occ_wr (wr a i (rd a j')) j' (0, default) (by rw [size_wr]; omega)
+    have hk2 : key (wr a i (rd a j')) j' = key a j' := by rw [key_wr, if_neg (by intro h; exact hij h.1)]
+    rw [hk2] at h2
+    have hk3 : (rd a j').1 ≠ 0 := hnz
+    simp only [hole, hnz, hk3, ne_eq, not_true_eq_false, not_false_eq_true, if_true, if_false] at h1 h2
+    show occ (wr (wr a i (rd a j')) j' (0, default)) = occ a
+    omega
+  · intro x hx hk
+    unfold key at hk
+    rw [hrd] at hk ⊢
+    by_cases h1 : x = j'
+    · rw [if_pos h1] at hk; exact absurd rfl hk
+    · rw [if_neg h1] at hk ⊢
+      by_cases h2 : x = i
+      · rw [if_pos h2]; exact Or.inl ⟨h2, rfl⟩
+      · rw [if_neg h2]; exact Or.inr ⟨h2, h1, rfl⟩
+
+/-- **Backward-shift deletion restores the probe-path invariant** and keeps
+every stored pair. -/
+theorem backShift_spec {idx : Nat → Nat → Nat} (hidx : IdxOk idx) {n i0 e0 : Nat} :
+    ∀ (f : Nat) (a : Slots V) (i j : Nat), BSInv idx n a i0 e0 i j → dist n i0 e0 ≤ dist n i0 j + f →
+      BSPost idx n a (backShift idx n a f i j) i0 e0 := by
+  intro f
+  induction f with
+  | zero => intro a i j I hf; have := I.ahead; omega
+  | succ f ih =>
+    intro a i j I hf
+    obtain ⟨hn, hd0, hdi⟩ := bs_next I
+    unfold backShift
+    simp only
+    by_cases hz : (rd a (next n j)).1 = 0
+    · rw [if_pos hz]; exact bs_done hidx I hz
+    · rw [if_neg hz]
+      by_cases hb : goBetween i (idx n (rd a (next n j)).1) (next n j) = true
+      · rw [if_pos hb]
+        exact ih a i (next n j) (bs_skip hidx I hz hb) (by omega)
+      · rw [if_neg hb]
+        have I' := bs_move hidx I hz hb
+        have hij : i ≠ next n j := by intro h; rw [← h] at hz; exact hz I.hole
+        have P := ih _ (next n j) (next n j) I' (by omega)
+        obtain ⟨hhas, hocc, hmov⟩ := move_rel a i (next n j) I.sz I.hi hn hij I.hole hz
+        refine ⟨P.sz, P.nodup, P.path, P.e0_empty, ?_, by rw [P.occ]; exact hocc, ?_⟩
+        · intro k v hk; rw [P.has k v hk]; exact hhas k v hk
+        · intro x hx hkx
+          obtain ⟨y, hy, hrdy, hdy⟩ := P.moved x hx hkx
+          have hky : key (wr (wr a i (rd a (next n j))) (next n j) (0, default)) y ≠ 0 := by
+            unfold key at hkx ⊢; rw [hrdy]; exact hkx
+          rcases hmov y hy hky with ⟨hyi, hr⟩ | ⟨_, _, hr⟩
+          · refine ⟨next n j, hn, by rw [← hrdy, hr], ?_⟩
+            have := I.order
+            rw [hyi] at hdy
+            omega
+          · exact ⟨y, hy, by rw [← hrdy, hr], hdy⟩
+
+
+/-- clearing an occupied slot and shifting back: the slot-level meaning of
+`Del` / one eviction. -/
+theorem delAt_slots {idx : Nat → Nat → Nat} (hidx : IdxOk idx) {a : Slots V} (inv : SInv idx a)
+    (i0 : Nat) (hi0 : i0 < a.size) (hk : key a i0 ≠ 0) :
+    let a' := backShift idx a.size (wr a i0 (0, default)) a.size i0 i0
+    SInv idx a' ∧ a'.size = a.size ∧ occ a' + 1 = occ a ∧
+    (∀ k v, k ≠ 0 → (Has a' k v ↔ (k ≠ key a i0 ∧ Has a k v))) ∧
+    (∀ x, x < a.size → key a' x ≠ 0 → ∃ y, y < a.size ∧ y ≠ i0 ∧ rd a y = rd a' x ∧
+      dist a.size i0 x ≤ dist a.size i0 y) := by
+  intro a'
+  obtain ⟨e0, he0, hke0⟩ := inv.free
+  have hne : e0 ≠ i0 := by intro h; subst h; exact hk hke0
+  have hk1 : ∀ x, key (wr a i0 (0, default)) x = if x = i0 then 0 else key a x := by
+    intro x
+    rw [key_wr]
+    by_cases h : x = i0
+    · rw [if_pos ⟨h.symm, hi0⟩, if_pos h]
+    · rw [if_neg (by intro h'; exact h h'.1.symm), if_neg h]
+  have hr1 : ∀ x, x ≠ i0 → rd (wr a i0 (0, default)) x = rd a x := fun x hx => rd_wr_ne a i0 x _ (Ne.symm hx)
+  have I : BSInv idx a.size (wr a i0 (0, default)) i0 e0 i0 i0 := by
+    refine ⟨size_wr _ _ _, hi0, he0, hi0, hi0, ?_, ?_, ?_, ?_, ?_, Nat.le_refl _, ?_⟩
+    · rw [hk1, if_pos rfl]
+    · rw [hk1, if_neg hne]; exact hke0
+    · intro p _ h0 hle; rw [dist_self] at hle; omega
+    · intro p hp hkp x hx hlt
+      rw [hk1] at hkp hlt ⊢
+      by_cases hp0 : p = i0
+      · rw [if_pos hp0] at hkp; exact absurd rfl hkp
+      · rw [if_neg hp0] at hkp hlt
+        by_cases hx0 : x = i0
+        · exact Or.inr hx0
+        · rw [if_neg hx0]; exact Or.inl (inv.path p hp hkp x hx hlt)
+    · intro x y hx hy h0 heq
+      rw [hk1] at h0
+      rw [hk1, hk1] at heq
+      by_cases hx0 : x = i0
+      · rw [if_pos hx0] at h0; exact absurd rfl h0
+      · rw [if_neg hx0] at h0 heq
+        by_cases hy0 : y = i0
+        · rw [if_pos hy0] at heq; exact absurd heq h0
+        · rw [if_neg hy0] at heq; exact inv.nodup x y hx hy h0 heq
+    · rw [dist_self]
+      have : dist a.size i0 e0 ≠ 0 := fun h => hne (dist_eq_zero hi0 he0 h).symm
+      omega
+  have P := backShift_spec hidx a.size (wr a i0 (0, default)) i0 i0 I
+    (by have := dist_lt hi0 he0; omega)
+  refine ⟨⟨?_, ?_, ?_⟩, P.sz, ?_, ?_, ?_⟩
+  · intro x y hx hy; rw [P.sz] at hx hy; exact P.nodup x y hx hy
+  · intro p hp hkp x hx; rw [P.sz] at hp hx ⊢; exact P.path p hp hkp x hx
+  · exact ⟨e0, by rw [P.sz]; exact he0, P.e0_empty⟩
+  · have := occ_wr a i0 (0, default) hi0
+    simp only [hk, ne_eq, not_false_eq_true, if_true, not_true_eq_false, if_false] at this
+    have := P.occ
+    show occ (backShift idx a.size (wr a i0 (0, default)) a.size i0 i0) + 1 = occ a
+    omega
+  · intro k v hk0
+    show Has (backShift idx a.size (wr a i0 (0, default)) a.size i0 i0) k v ↔ _
+    rw [P.has k v hk0]
+    unfold Has
+    rw [size_wr]
+    constructor
+    · rintro ⟨p, hp, h⟩
+      have hp0 : p ≠ i0 := by
+        intro e; subst e; rw [rd_wr_same a p _ hi0] at h
+        simp only [Prod.mk.injEq] at h; exact hk0 h.1.symm
+      rw [hr1 p hp0] at h
+      refine ⟨?_, p, hp, h⟩
+      intro hkk
+      have : key a p = key a i0 := by unfold key at hkk ⊢; rw [h]; exact hkk
+      exact hp0 (inv.nodup p i0 hp hi0 (by rw [this]; exact hk) this)
+    · rintro ⟨hkk, p, hp, h⟩
+      have hp0 : p ≠ i0 := by intro e; subst e; unfold key at hkk; rw [h] at hkk; exact hkk rfl
+      exact ⟨p, hp, by rw [hr1 p hp0]; exact h⟩
+  · intro x hx hkx
+    obtain ⟨y, hy, hrd, hd⟩ := P.moved x hx hkx
+    have hy0 : y ≠ i0 := by
+      intro e; subst e
+      rw [rd_wr_same a y _ hi0] at hrd
+      have hkx' : (rd (backShift idx a.size (wr a y (0, default)) a.size y y) x).1 ≠ 0 := hkx
+      rw [← hrd] at hkx'; exact hkx' rfl
+    exact ⟨y, hy, hy0, by rw [← hr1 y hy0]; exact hrd, hd⟩
 
 end SdnsVerif.Lemmas.UMap
